@@ -19,7 +19,7 @@ import c19
 
 META = {
     "level": "other",
-    "technique": "static analysis: the format document's numbered lists and numeric sentences are parsed on every run and compared with write sequences and evaluated constants extracted from MIR (rustc_private driver)",
+    "technique": "static analysis: the format document's numbered lists and numeric sentences are parsed on every run and compared with write sequences and evaluated constants extracted from MIR; must-pass-through of the block-fit test before every run is encoded (rustc_private driver; bodies normalised by helper inlining and combinator expansion)",
     "explanation": "SERIALIZATION.md is parsed into per-structure sequences of item kinds (element, raw bitvector, bitvector, integer vector, "
                    "optional, repeated bitvector, core, items, padding) with the field each item describes; the same sequences are extracted "
                    "from serialize_header/serialize_body of the corresponding impl. A field order or type changed consistently in serialize "
